@@ -41,6 +41,11 @@ CHECKS = {
    note="Three unknown child names (software, protocol under emlRule; studyAreaDescription under relatedProjectRule) are recorded known findings; acknowledgements was fixed.",
    technique="TLA+ constant-level clauses over the generated rule table evaluated by TLC (MC_Table); witnesses replayed through validate.tree",
    design="4/C10"),
+ "C11": dict(
+   text="Every read-only entry point (31: both validators in both modes, both evaluators, 4 JSON/dict serialisers, both XML exporters, both graph renderers, all search queries, insertion index, allowed-child, structural comparison, str/repr/object, attribute queries) is a stuttering action of the spec. After each call the full projection (every field of every node, order, namespace maps, registry) is logged and TraceForest.tla requires post = pre field by field, and - with a memo state variable - that equal calls give equal results since the last mutating call. Orders: a baseline pass, then every ordered pair (enumerated by TLC, MC_ReadOnly), then seeded sequences of 24 on larger trees; trees: EML fixture, generated valid trees, trees with & < > and pre-escaped entities, trees with namespaces/prefixes/extras/tails.",
+   note="Trusted: pi reads public properties only; an exception is treated as the call's result here. Results are compared as interned strings with nodes rendered by abstract id.",
+   technique="trace validation: stuttering + memo clauses of TraceForest.tla judged by TLC on recorded full-state traces; op orders enumerated by TLC",
+   design="4/C11"),
  "C12": dict(
    text="TLC explores MC_Copy: 3 templates (every field populated, namespace dicts aliased between parents and children as the API creates them) x copy of any subtree x every single edit (thorough: every pair of edits) on any node of either tree - one mutator per mutable container a node owns; CopyOK (equal, disjoint, fresh registered ids, unlisted root) is an action property of the spec. Every transition is replayed after its genuine history and the full projection of both trees is compared, so any container shared between copy and original is written through by some explored edit and shows up in the other tree.",
    note="Trusted: TLC, projection pi, interning of text. Small-scope: trees of <= 4 nodes; values from a 2-element universe per field.",
